@@ -504,3 +504,101 @@ pub fn guard<T>(f: impl FnOnce() -> T) -> Result<T, String> {
         Err(_) => Err(LAST_PANIC.with(|p| p.borrow_mut().take()).unwrap_or_else(|| "panic".into())),
     }
 }
+
+// ------------------------------------------------------------------------------------------------
+// secondary engine: libFuzzer campaign (thorough tier)
+
+pub struct FuzzOutcome {
+    pub runs: u64,
+    pub cov: u64,
+    pub corpus: u64,
+    /// replay files written by the in-target oracle (fuzzglue::report)
+    pub replays: Vec<PathBuf>,
+    /// crash artifacts without an oracle report (abort, stack overflow, …)
+    pub raw_crashes: Vec<PathBuf>,
+    pub infra_error: Option<String>,
+}
+
+/// Run `cargo +nightly fuzz run <target>` for a fixed number of runs from a fresh scratch corpus
+/// (seeded with the committed corpus of the target, if any).
+pub fn fuzz_stage(target: &str, runs: u64, seed: u64, max_len: u32) -> FuzzOutcome {
+    let mut out = FuzzOutcome { runs: 0, cov: 0, corpus: 0, replays: vec![], raw_crashes: vec![], infra_error: None };
+    let root = verif_root();
+    let scratch = std::env::temp_dir().join(format!("waxverif-fuzz-{}-{}", std::process::id(), target));
+    let _ = std::fs::remove_dir_all(&scratch);
+    let corpus = scratch.join("corpus");
+    let artifacts = scratch.join("artifacts");
+    if std::fs::create_dir_all(&corpus).is_err() || std::fs::create_dir_all(&artifacts).is_err() {
+        out.infra_error = Some("cannot create fuzz scratch directories".into());
+        return out;
+    }
+    // committed seed corpus
+    let committed = PathBuf::from("/verif/fuzz/corpus").join(target);
+    if let Ok(rd) = std::fs::read_dir(&committed) {
+        for e in rd.flatten() {
+            let _ = std::fs::copy(e.path(), corpus.join(e.file_name()));
+        }
+    }
+    let harness_dir = PathBuf::from("/verif/harness");
+    let res = std::process::Command::new("cargo")
+        .current_dir(&harness_dir)
+        .args(["+nightly", "fuzz", "run", "--fuzz-dir", "../fuzz", "-s", "none", target])
+        .arg(&corpus)
+        .arg("--")
+        .arg(format!("-runs={}", runs))
+        .arg(format!("-seed={}", seed.max(1)))
+        .arg(format!("-max_len={}", max_len))
+        .arg("-len_control=0")
+        .arg("-print_final_stats=1")
+        .arg(format!("-artifact_prefix={}/", artifacts.display()))
+        .env("RUSTFLAGS", "--cfg olson_sean_k_wax_verif")
+        .env("CARGO_NET_OFFLINE", "true")
+        .env("VERIF_ROOT", &root)
+        .env_remove("RUST_BACKTRACE")
+        .output();
+    let res = match res {
+        Ok(r) => r,
+        Err(e) => {
+            out.infra_error = Some(format!("cannot start cargo fuzz: {}", e));
+            return out;
+        },
+    };
+    let stderr = String::from_utf8_lossy(&res.stderr).to_string();
+    for line in stderr.lines() {
+        if let Some(rest) = line.strip_prefix("Done ") {
+            out.runs = rest.split_whitespace().next().and_then(|x| x.parse().ok()).unwrap_or(0);
+        }
+        if line.starts_with('#') && line.contains("cov: ") {
+            let grab = |key: &str| -> u64 {
+                line.split(key).nth(1).and_then(|x| x.split_whitespace().next()).and_then(|x| x.split('/').next()).and_then(|x| x.parse().ok()).unwrap_or(0)
+            };
+            out.cov = grab("cov: ");
+            out.corpus = grab("corp: ");
+        }
+        if let Some(rest) = line.strip_prefix("VIOLATION property=") {
+            if let Some(p) = rest.split("replay=").nth(1) {
+                out.replays.push(PathBuf::from(p.trim()));
+            }
+        }
+    }
+    if !res.status.success() {
+        if out.replays.is_empty() {
+            if let Ok(rd) = std::fs::read_dir(&artifacts) {
+                for e in rd.flatten() {
+                    // keep the raw crash input next to the violations
+                    let keep = root.join("violations").join("fuzz-raw");
+                    let _ = std::fs::create_dir_all(&keep);
+                    let dst = keep.join(format!("{}-{}", target, e.file_name().to_string_lossy()));
+                    let _ = std::fs::copy(e.path(), &dst);
+                    out.raw_crashes.push(dst);
+                }
+            }
+            if out.raw_crashes.is_empty() {
+                let tail: Vec<&str> = stderr.lines().rev().take(12).collect();
+                out.infra_error = Some(format!("cargo fuzz failed without a crash artifact: {}", tail.into_iter().rev().collect::<Vec<_>>().join(" | ")));
+            }
+        }
+    }
+    let _ = std::fs::remove_dir_all(&scratch);
+    out
+}
